@@ -44,7 +44,7 @@ class Node:
             src = ast.unparse(self.ast).split("\n")[0][:50]
         elif self.ast is not None and self.kind in ("test", "branch") and hasattr(self.ast, "test"):
             src = ast.unparse(self.ast.test)[:50]
-        elif self.ast is not None and self.kind in ("for", "for_exit"):
+        elif self.ast is not None and self.kind in ("for", "for_exit", "for_init"):
             src = "for " + ast.unparse(self.ast.target) + " in " + ast.unparse(self.ast.iter)[:40]
         return f"<{self.id}:{self.kind}{'' if self.polarity is None else ':' + str(self.polarity)} L{self.lineno} {src}>"
 
@@ -94,6 +94,7 @@ class CFG:
         self.exc_exit = self._new("exc_exit")
         self.stmt_node: Dict[int, Node] = {}  # id(ast stmt) -> node (first node of the statement)
         self.expr_node: Dict[int, Node] = {}  # id(any ast expr evaluated by a node) -> node
+        self.for_init: Dict[int, Node] = {}   # id(For stmt) -> node evaluating its iterable
         self._build()
         self._dom = None
         self._pdom = None
@@ -180,11 +181,16 @@ class CFG:
             ends = self._block(st.orelse, [bf], ctx) if st.orelse else [bf]
             return ends + loop["breaks"]
         if isinstance(st, ast.For):
+            init = self._new("for_init", st)   # evaluates the iterable once
+            self._own_exprs(init, st.iter)
+            self._link(preds, init)
+            self._raise_target(init, ctx)
+            self.for_init[id(st)] = init
             h = self._new("for", st)
             h.defs = _names_in_target(st.target)
             self.stmt_node[id(st)] = h
-            self._own_exprs(h, st.iter, st.target)
-            self._link(preds, h)
+            self._own_exprs(h, st.target)
+            self._edge(init, h)
             self._raise_target(h, ctx)  # the iterator protocol may raise
             fx = self._new("for_exit", st)
             self._edge(h, fx)
